@@ -450,6 +450,8 @@ int main(int argc, char** argv) {
                         log.ok();
                     };
                     { ESmry es(tmp + "/" + last + ".SMSPEC", true); es.loadData(); cmp(es.get("TIME"), "esmry"); }
+                    // a vector list naming the same vector twice
+                    { ESmry es(tmp + "/" + last + ".SMSPEC", true); es.loadData({ "TIME", "TIME" }); cmp(es.get("TIME"), "esmry.duplicate-name"); }
                     if (permuted) {
                         auto cmpW = [&](const std::vector<float>& v, const std::string& reader) {
                             if (v.size() != wantW.size()) { log.fail(key + ".permuted." + reader, "series length " + std::to_string(v.size()) + " expected " + std::to_string(wantW.size()) + info); return; }
